@@ -177,7 +177,7 @@ func cliItem(idx int, ctx *core.Ctx) {
 		ctx.Violate(sc, v)
 		return
 	}
-	if idx%40 == 3 && os.Getenv("VERIF_NO_CONFORM") == "" {
+	if prng.Mix(uint64(idx), 0xc11)%12 == 0 && os.Getenv("VERIF_NO_CONFORM") == "" {
 		cliNative(sc, ctx)
 	}
 }
